@@ -8,9 +8,9 @@ func init() {
 			{Pkg: "sequence", Harness: "conc", Weight: 2},
 		},
 		QuickS: 25, ThoroughS: 600,
-		Rule:  "a scenario is 2-4 lifetimes of Sequence objects (interval from {1,2,3,5,8}; scripts of Next/Release incl. release-only lifetimes) over one persistent store. enum: single-task lifetimes; for one chosen lifetime every store-call boundary (before/after each Get/Set) is used as crash point and every store call as failing call, each in a fresh world inside the run (complete enumeration for the generated scenario). conc: 1-3 tasks per lifetime, crash boundary / failing call and schedule sampled. distinct = distinct (scenario, faults, schedule, event log) hash; non-trivial = at least two recorded decisions",
-		Real:  []string{"kvstore.Sequence", "kvstore/mapdb (persistent store; each call one atomic step)"},
-		Stubs: append([]string{"faultkv (harness KVStore wrapper: fails a call before it takes effect; crash = freezing the lifetime's tasks at a store-call boundary, only store contents survive)"}, commonStubs...),
+		Rule:   "a scenario is 2-4 lifetimes of Sequence objects (interval from {1,2,3,5,8}; scripts of Next/Release incl. release-only lifetimes) over one persistent store. enum: single-task lifetimes; for one chosen lifetime every store-call boundary (before/after each Get/Set) is used as crash point and every store call as failing call, each in a fresh world inside the run (complete enumeration for the generated scenario). conc: 1-3 tasks per lifetime, crash boundary / failing call and schedule sampled. distinct = distinct (scenario, faults, schedule, event log) hash; non-trivial = at least two recorded decisions",
+		Real:   []string{"kvstore.Sequence", "kvstore/mapdb (persistent store; each call one atomic step)"},
+		Stubs:  append([]string{"faultkv (harness KVStore wrapper: fails a call before it takes effect; crash = freezing the lifetime's tasks at a store-call boundary, only store contents survive)"}, commonStubs...),
 		Assume: []string{"one Sequence object per key is alive at a time (lifetimes are sequential; a crashed lifetime's tasks never run again)", "store calls are atomic and durable once they return (mapdb)", "crash points are store-call boundaries (before the call / after it took effect) — between them the Sequence only touches its own memory, which does not survive"},
 	})
 }
